@@ -23,6 +23,7 @@ type zzBackend struct {
 	calls   int
 	failW   bool
 	failR   bool
+	failSnap bool
 	monitor types.MonitorChannel
 }
 
@@ -43,7 +44,12 @@ func (b *zzBackend) ReadAt(p []byte, off int64) (int, error) {
 func (b *zzBackend) Close() error                  { return nil }
 func (b *zzBackend) Sync() (int, error)            { b.calls++; if b.failW { return -1, fmt.Errorf("injected") }; return 0, nil }
 func (b *zzBackend) Unmap(int64, int64) (int, error) { b.calls++; if b.failW { return -1, fmt.Errorf("injected") }; return 0, nil }
-func (b *zzBackend) Snapshot(name string, userCreated bool, created string) error { return nil }
+func (b *zzBackend) Snapshot(name string, userCreated bool, created string) error {
+	if b.failSnap {
+		return fmt.Errorf("injected snapshot failure")
+	}
+	return nil
+}
 func (b *zzBackend) GetReplicaChain() ([]string, error)      { return []string{"head", "snap"}, nil }
 func (b *zzBackend) SetCheckpoint(string) error              { return nil }
 func (b *zzBackend) Resize(string, string) error             { return nil }
@@ -378,6 +384,129 @@ func TestZZReplay(t *testing.T) {
 }
 `, failCounter, rf)
 			return ctlMock + body, true
+		},
+	})
+}
+
+func init() {
+	// Snapshot / Resize: status part of the lock invariant after handleErrorNoLock marked replicas ERR
+	replayTemplates = append(replayTemplates, replayTemplate{
+		match: func(o *Obligation) bool {
+			return o.Fn == "controller.Controller.Snapshot" && strings.HasPrefix(o.Kind, "lockinv.status")
+		},
+		pkg: "controller",
+		gen: func(o *Obligation, vals map[string]string) (string, bool) {
+			body := `
+func TestZZReplay(t *testing.T) {
+	// every replica answers GET /v1/replicas/1 (Snapshot asks one RW replica for its chain first)
+	srv := httptest.NewServer(http.HandlerFunc(func(w http.ResponseWriter, r *http.Request) {
+		w.Header().Set("Content-Type", "application/json")
+		w.Write([]byte("{\"chain\": [\"volume-head-001.img\", \"volume-snap-s0.img\"]}"))
+	}))
+	defer srv.Close()
+	base := "tcp://" + strings.TrimPrefix(srv.URL, "http://")
+	c := NewController(WithRF(3), WithFrontend(zzFrontend{}, ""))
+	var bs []*zzBackend
+	for i := 0; i < 3; i++ {
+		addr := base
+		if i > 0 {
+			addr = fmt.Sprintf("tcp://10.0.0.%d:9502", i)
+		}
+		b := &zzBackend{name: addr, failSnap: i > 0}
+		bs = append(bs, b)
+		c.replicas = append([]types.Replica{{Address: addr, Mode: types.WO}}, c.replicas...)
+		c.backend.AddBackend(addr, b)
+		c.setReplicaModeNoLock(addr, types.RW)
+	}
+	c.size = 1 << 30
+	c.UpdateVolStatus()
+	_, err := c.Snapshot("s1")
+	rw := 0
+	for _, r := range c.replicas {
+		if r.Mode == types.RW {
+			rw++
+		}
+	}
+	wantRO := rw < (c.ReplicationFactor+c.quorumReplicaCount)/2+1
+	t.Logf("Snapshot err=%v; replicas=%+v RO=%v RWcount=%d (actual RW entries %d, read-only should be %v)", err, c.replicas, c.ReadOnly, c.RWReplicaCount, rw, wantRO)
+	if c.RWReplicaCount != rw || c.ReadOnly != wantRO {
+		n, werr := c.WriteAt(make([]byte, 4096), 0)
+		t.Fatalf("REPLAY-REPRODUCED: Snapshot released the lock with the status stale; a write issued right after returned n=%d err=%v with %d of %d replicas RW", n, werr, rw, c.ReplicationFactor)
+	}
+	t.Log("REPLAY-NOT-REPRODUCED")
+}
+`
+			src := strings.Replace(ctlMock, `import (
+	"fmt"`, `import (
+	"fmt"
+	"net/http"
+	"net/http/httptest"
+	"strings"`, 1)
+			return src + body, true
+		},
+	})
+}
+
+func init() {
+	// VerifyRebuildReplica: slice bounds of rwChain[1:indx+1] / chain[1:indx+1]
+	replayTemplates = append(replayTemplates, replayTemplate{
+		match: func(o *Obligation) bool {
+			return o.Fn == "controller.Controller.VerifyRebuildReplica" && o.Kind == "slice"
+		},
+		pkg: "controller",
+		gen: func(o *Obligation, vals map[string]string) (string, bool) {
+			l1, ok1 := intVal(vals, "len(local:rwChain)")
+			l2, ok2 := intVal(vals, "len(local:chain)")
+			if !ok1 || l1 < 0 || l1 > 64 {
+				return "", false
+			}
+			if !ok2 || l2 < 0 || l2 > 64 {
+				l2 = 0
+			}
+			body := fmt.Sprintf(`
+func zzChainServer(n int) *httptest.Server {
+	chain := []string{}
+	for i := 0; i < n; i++ {
+		chain = append(chain, fmt.Sprintf("\"volume-snap-%%d.img\"", i))
+	}
+	return httptest.NewServer(http.HandlerFunc(func(w http.ResponseWriter, r *http.Request) {
+		w.Header().Set("Content-Type", "application/json")
+		w.Write([]byte("{\"chain\": [" + strings.Join(chain, ",") + "], \"checkpoint\": \"\"}"))
+	}))
+}
+
+func TestZZReplay(t *testing.T) {
+	rwSrv, woSrv := zzChainServer(%d), zzChainServer(%d)
+	defer rwSrv.Close()
+	defer woSrv.Close()
+	rwAddr := "tcp://" + strings.TrimPrefix(rwSrv.URL, "http://")
+	woAddr := "tcp://" + strings.TrimPrefix(woSrv.URL, "http://")
+	c := NewController(WithRF(2), WithFrontend(zzFrontend{}, ""))
+	for i, addr := range []string{rwAddr, woAddr} {
+		c.replicas = append(c.replicas, types.Replica{Address: addr, Mode: types.WO})
+		c.backend.AddBackend(addr, &zzBackend{name: addr})
+		if i == 0 {
+			c.setReplicaModeNoLock(addr, types.RW)
+		}
+	}
+	c.UpdateVolStatus()
+	defer func() {
+		if r := recover(); r != nil {
+			t.Fatalf("REPLAY-REPRODUCED: VerifyRebuildReplica panicked in the request handler path (RW chain of %%d, WO chain of %%d): %%v", %d, %d, r)
+		}
+	}()
+	err := c.VerifyRebuildReplica(woAddr)
+	t.Logf("VerifyRebuildReplica err=%%v", err)
+	t.Log("REPLAY-NOT-REPRODUCED")
+}
+`, l1, l2, l1, l2)
+			src := strings.Replace(ctlMock, `import (
+	"fmt"`, `import (
+	"fmt"
+	"net/http"
+	"net/http/httptest"
+	"strings"`, 1)
+			return src + body, true
 		},
 	})
 }
